@@ -3,14 +3,28 @@
 //! (a) E1 full product: scheme × method × network segment × tag × suffix × prefix strings through
 //!     `IotaDID::{parse, from_str, try_from(&str|String)}` (family "IotaDID::parse") and, via a `CoreDID` /
 //!     `BaseDIDUrl` / JSON string, through `IotaDID::{try_from_core, try_from(CoreDID), try_from(BaseDIDUrl),
-//!     deserialize}` (family "IotaDID::try_from_core").
-//! (b) single-character substitutions at every tag position; every network name over a small alphabet embedded
-//!     in a DID.
-//! (c) `NetworkName::{try_from, validate_network_name, deserialize}` on all strings ≤ n over a small alphabet.
-//! (d) constructors `new`, `placeholder`, `from_alias_id` on structured tags × all short valid network names.
+//!     deserialize}` (family "IotaDID::try_from_core"); (a2) every sequence of ≤ 3 (thorough 5) leading segments
+//!     over a small segment alphabet in front of a tag.
+//! (b) every ASCII character (and a few non-ASCII ones) substituted at every tag position, every pair of positions
+//!     with a small substitution alphabet, every truncation / extension; every network name over a small alphabet and every
+//!     ASCII character at every position of a network name, embedded in a DID.
+//! (c) `NetworkName::{try_from, validate_network_name, deserialize}` on all strings ≤ n over small alphabets and
+//!     on the complete character table at every position of names of length 1..=7.
+//! (d) constructors `new`, `placeholder`, `from_alias_id` on structured tags (every byte value occurs) × all
+//!     short valid network names, the name obtained through every one of its constructors.
 //! (e) pairwise equality / Ord / Hash over a pool of clean values reached through every construction path.
+//! (f) owning `String` conversions, probed in child processes under a CPU-time budget.
+//!
+//! Judged (statement / documented API): accepted ⇒ the input is an IOTA DID (read ASCII-case-insensitively) and the
+//! value is its normal form, decomposes, re-parses, converts to `CoreDID` / JSON / `DIDUrl` and back unchanged;
+//! an input that already is in normal form is accepted by every entry point; constructors expose what they were
+//! given; `==` ⇔ same (network, tag bytes), `Ord`/`Hash` consistent with it.
+//! Executed and recorded only: acceptance of upper-case spellings, which error is returned, `Display`/`Debug` of
+//! `NetworkName`, `is_valid` vs `try_from_core` on inputs that are not in normal form, `from_alias_id` on
+//! anything that is not `0x` + 64 hex digits.
 
-use identity_did::{BaseDIDUrl, CoreDID, DID};
+use identity_core::common::KeyComparable;
+use identity_did::{BaseDIDUrl, CoreDID, DIDUrl, DID};
 use identity_iota_core::{IotaDID, NetworkName};
 use serde::{Deserialize, Serialize};
 use std::cmp::Ordering;
@@ -212,19 +226,20 @@ fn judge(ctx: &Ctx, family: &str, via: &str, input: &str, v: &IotaDID, case: &Ca
     }
   }
   // accessors recompose
-  let acc = guard(|| (v.scheme().to_owned(), v.method().to_owned(), v.method_id().to_owned(), v.network_str().to_owned(), v.tag_str().to_owned(), v.is_placeholder()));
+  let acc = guard(|| (v.scheme().to_owned(), v.method().to_owned(), v.method_id().to_owned(), v.network_str().to_owned(), v.tag_str().to_owned(), v.is_placeholder(), v.authority().to_owned()));
   match acc {
     Err(p) => {
       ctx.violation(&format!("{family}|accessor|{}", pkey(&p)), &format!("{via}({input:?}) = {vs:?}: {}", p.msg), case);
       return false;
     }
-    Ok((scheme, method, method_id, network_str, tag_str, placeholder)) => {
+    Ok((scheme, method, method_id, network_str, tag_str, placeholder, authority)) => {
       let want_tag = format!("0x{}", hex_lower(&tag));
       let recomposed = if network_str == "iota" { format!("did:{method}:{tag_str}") } else { format!("did:{method}:{network_str}:{tag_str}") };
-      if scheme != "did" || method != "iota" || network_str != net || tag_str != want_tag || recomposed != vs || format!("did:{method}:{method_id}") != vs {
+      // (`authority` is documented as "the method name and method-id")
+      if scheme != "did" || method != "iota" || network_str != net || tag_str != want_tag || recomposed != vs || format!("did:{method}:{method_id}") != vs || format!("did:{authority}") != vs {
         ctx.violation(
           &format!("{family}|accessors-do-not-recompose"),
-          &format!("{via}({input:?}) = {vs:?}: method {method:?} method_id {method_id:?} network_str {network_str:?} tag_str {tag_str:?}"),
+          &format!("{via}({input:?}) = {vs:?}: method {method:?} method_id {method_id:?} authority {authority:?} network_str {network_str:?} tag_str {tag_str:?}"),
           case,
         );
         return false;
@@ -252,7 +267,7 @@ fn judge(ctx: &Ctx, family: &str, via: &str, input: &str, v: &IotaDID, case: &Ca
       return false;
     }
   }
-  // the value denotes what the (ASCII) input denotes
+  // the value denotes what the input denotes
   if input.is_ascii() {
     match denotes(input) {
       Some((n, t)) => {
@@ -266,8 +281,91 @@ fn judge(ctx: &Ctx, family: &str, via: &str, input: &str, v: &IotaDID, case: &Ca
         return false;
       }
     }
+  } else {
+    // DID syntax is ASCII: a string with any other character is not a DID, whatever a Unicode case mapping makes of it
+    ctx.violation(
+      &format!("{family}|accepted|non-ascii-input"),
+      &format!("{via}({input:?}) = {vs:?}: the input contains non-ASCII characters, it is not a DID (and not an IOTA DID in any spelling)"),
+      case,
+    );
+    return false;
   }
-  true
+  // ---- the value is clean from here on: what follows is about the conversions of a good value
+  let mut ok = true;
+  // CoreDID and back, serde and back, the validity predicates on the value itself
+  let conv = guard(|| {
+    let core: CoreDID = CoreDID::from(v.clone());
+    let core2: CoreDID = Into::<CoreDID>::into(v.clone());
+    let back = IotaDID::try_from(core.clone()).ok();
+    let back2 = IotaDID::try_from_core(core2).ok();
+    let serde_back = serde_json::to_value(v).ok().and_then(|j| serde_json::from_value::<IotaDID>(j).ok());
+    let valid = IotaDID::check_validity(v).is_ok() && IotaDID::is_valid(v.as_ref()) && IotaDID::check_validity(&core).is_ok();
+    let key_ok = KeyComparable::key(v).as_str() == vs;
+    (back, back2, serde_back, valid, key_ok)
+  });
+  match conv {
+    Err(p) => {
+      ctx.violation(&format!("IotaDID<->CoreDID|{}", pkey(&p)), &format!("conversions of {vs:?}: {}", p.msg), case);
+      ok = false;
+    }
+    Ok((back, back2, serde_back, valid, key_ok)) => {
+      if !key_ok {
+        ctx.violation("IotaDID::key|not-the-did", &format!("{vs:?}: KeyComparable::key is another DID"), case);
+        ok = false;
+      }
+      if back.as_ref() != Some(v) || back2.as_ref() != Some(v) {
+        ctx.violation("IotaDID<->CoreDID|round-trip-differs", &format!("{vs:?}: CoreDID::from then IotaDID::try_from gives {:?} / {:?}", back.as_ref().map(|d| d.as_str().to_owned()), back2.as_ref().map(|d| d.as_str().to_owned())), case);
+        ok = false;
+      }
+      if serde_back.as_ref() != Some(v) {
+        ctx.violation("IotaDID::deserialize|serde-round-trip-differs", &format!("{vs:?}: serialized and deserialized gives {:?}", serde_back.as_ref().map(|d| d.as_str().to_owned())), case);
+        ok = false;
+      }
+      if !valid {
+        ctx.violation("IotaDID::check_validity|rejects-accepted-value", &format!("{vs:?} (from {via}) is not valid according to check_validity / is_valid"), case);
+        ok = false;
+      }
+    }
+  }
+  // base of a DID URL (DID trait: `to_url` / `into_url` "of the same method", `join` "append[s] a path, query, and/or fragment")
+  const RELS: [&str; 4] = ["#k", "/p", "?q=1", "/p?q=1#k"];
+  let urls = guard(|| {
+    let u: DIDUrl = v.to_url();
+    let iu: DIDUrl = v.clone().into_url();
+    let plain = u.did().as_str() == vs && u.to_string() == vs && u.url().is_empty() && iu == u && iu.to_string() == vs;
+    let joined: Vec<Option<(String, String, bool)>> = RELS
+      .iter()
+      .map(|rel| v.clone().join(rel).ok().map(|j| (j.to_string(), j.did().as_str().to_owned(), IotaDID::try_from(j.did().clone()).ok().as_ref() == Some(v))))
+      .collect();
+    (plain, joined)
+  });
+  match urls {
+    Err(p) => {
+      ctx.violation(&format!("DID::to_url(IotaDID)|{}", pkey(&p)), &format!("to_url / into_url / join on {vs:?}: {}", p.msg), case);
+      ok = false;
+    }
+    Ok((plain, joined)) => {
+      if !plain {
+        ctx.violation("DID::to_url(IotaDID)|not-the-did", &format!("{vs:?}: to_url / into_url do not give the DID URL that consists of this DID"), case);
+        ok = false;
+      }
+      for (rel, j) in RELS.iter().zip(joined) {
+        match j {
+          None => {
+            ctx.violation("DID::join(IotaDID)|valid-segment-rejected", &format!("{vs:?}.join({rel:?})"), case);
+            ok = false;
+          }
+          Some((string, did, same)) => {
+            if string != format!("{vs}{rel}") || did != vs || !same {
+              ctx.violation("DID::join(IotaDID)|not-did-plus-segment", &format!("{vs:?}.join({rel:?}) = {string:?} with did {did:?}"), case);
+              ok = false;
+            }
+          }
+        }
+      }
+    }
+  }
+  ok
 }
 
 #[derive(Debug, Clone, PartialEq)]
@@ -294,6 +392,13 @@ fn sig_label(s: &Sig) -> &'static str {
 fn eval_str(ctx: &Ctx, s: &str, l: &mut Local) {
   l.evals += 1;
   let case = Case::Str { s: s.to_owned() };
+  // baseline family: the input already is an IOTA DID in normal form — every entry point must take it
+  let baseline = normal_form(s).is_ok();
+  let must_accept = |entry: &str, got: &Sig| {
+    if baseline && *got == Sig::Err {
+      ctx.violation(&format!("{entry}|rejected|normal-form-input"), &format!("{s:?} is an IOTA DID in normal form"), &case);
+    }
+  };
   // ---- family parse
   let r = guard(|| IotaDID::parse(s));
   let sp = sig(&r);
@@ -307,7 +412,7 @@ fn eval_str(ctx: &Ctx, s: &str, l: &mut Local) {
     Ok(Ok(v)) => {
       judge(ctx, "IotaDID::parse", "IotaDID::parse", s, v, &case);
     }
-    Ok(Err(_)) => {}
+    Ok(Err(_)) => must_accept("IotaDID::parse", &sp),
   }
   for (name, o) in [
     ("IotaDID::from_str", sig(&guard(|| IotaDID::from_str(s)))),
@@ -322,9 +427,11 @@ fn eval_str(ctx: &Ctx, s: &str, l: &mut Local) {
   let core = guard(|| CoreDID::parse(s));
   let mut st = Sig::Err;
   let mut core_label = "CoreDID=Err";
+  let mut valid_label = "is_valid=n/a";
   match core {
     Err(_) => core_label = "CoreDID=PANIC", // reported by C10
-    Ok(Err(_)) => {}
+    // (a normal-form IOTA DID is a DID: CoreDID refusing it surfaces here through the IOTA entry point)
+    Ok(Err(_)) => must_accept("IotaDID::try_from_core", &Sig::Err),
     Ok(Ok(core)) => {
       core_label = "CoreDID=Ok";
       let r = guard(|| IotaDID::try_from_core(core.clone()));
@@ -334,17 +441,34 @@ fn eval_str(ctx: &Ctx, s: &str, l: &mut Local) {
         Ok(Ok(v)) => {
           judge(ctx, "IotaDID::try_from_core", "IotaDID::try_from_core", s, v, &case);
         }
-        Ok(Err(_)) => {}
+        Ok(Err(_)) => must_accept("IotaDID::try_from_core", &st),
       }
       let o = sig(&guard(|| IotaDID::try_from(core.clone())));
       if o != st {
         ctx.violation("IotaDID::try_from(CoreDID)|differs-from-try_from_core", &format!("input {s:?}: {st:?} vs {o:?}"), &case);
       }
-      // the validity predicates agree with the conversion
-      let valid = guard(|| (IotaDID::is_valid(&core), IotaDID::check_validity(&core).is_ok()));
-      if let Ok((a, b)) = valid {
-        if a != b || a != matches!(st, Sig::Ok(_)) {
-          ctx.violation("IotaDID::is_valid|disagrees-with-try_from_core", &format!("input {s:?}: is_valid {a}, check_validity {b}, try_from_core {st:?}"), &case);
+      // the validity predicates: `is_valid` is documented as equivalent to `check_validity(..).is_ok()`; "valid"
+      // only for an IOTA DID (any ASCII case), and always for one in normal form. Whether a predicate also says
+      // "valid" for the spellings that `try_from_core` normalises (upper-case hex digits, explicit default
+      // network) is not fixed by the statement: their agreement with the conversion is recorded, not judged.
+      match guard(|| (IotaDID::is_valid(&core), IotaDID::check_validity(&core).is_ok())) {
+        Err(p) => ctx.violation(&format!("IotaDID::is_valid|{}", pkey(&p)), &format!("is_valid / check_validity(CoreDID {s:?}): {}", p.msg), &case),
+        Ok((a, b)) => {
+          if a != b {
+            ctx.violation("IotaDID::is_valid|differs-from-check_validity", &format!("input {s:?}: is_valid {a}, check_validity(..).is_ok() {b}"), &case);
+          }
+          if (a || b) && !(s.is_ascii() && denotes(s).is_some()) {
+            ctx.violation("IotaDID::is_valid|accepted|input-not-an-iota-did", &format!("CoreDID {s:?}: is_valid {a}, check_validity(..).is_ok() {b}"), &case);
+          }
+          if baseline && !(a && b) {
+            ctx.violation("IotaDID::is_valid|rejected|normal-form-input", &format!("CoreDID {s:?}: is_valid {a}, check_validity(..).is_ok() {b}"), &case);
+          }
+          valid_label = match (a, matches!(st, Sig::Ok(_))) {
+            (true, true) => "is_valid=true(=conversion)",
+            (false, false) => "is_valid=false(=conversion)",
+            (true, false) => "is_valid=true(conversion Err)",
+            (false, true) => "is_valid=false(conversion Ok)",
+          };
         }
       }
     }
@@ -360,7 +484,7 @@ fn eval_str(ctx: &Ctx, s: &str, l: &mut Local) {
     Ok(Ok(v)) => {
       judge(ctx, "IotaDID::try_from_core", "IotaDID::try_from(BaseDIDUrl)", s, v, &case);
     }
-    Ok(Err(_)) => {}
+    Ok(Err(_)) => must_accept("IotaDID::try_from(BaseDIDUrl)", &Sig::Err),
   }
   let rd = guard(|| serde_json::from_value::<IotaDID>(json!(s)));
   match &rd {
@@ -373,7 +497,7 @@ fn eval_str(ctx: &Ctx, s: &str, l: &mut Local) {
     Ok(Ok(v)) => {
       judge(ctx, "IotaDID::try_from_core", "IotaDID::deserialize", s, v, &case);
     }
-    Ok(Err(_)) => {}
+    Ok(Err(_)) => must_accept("IotaDID::deserialize", &Sig::Err),
   }
   let (sb, sd) = (sig(&rb), sig(&rd));
   let den = if s.is_ascii() {
@@ -385,17 +509,22 @@ fn eval_str(ctx: &Ctx, s: &str, l: &mut Local) {
   } else {
     "non-ascii"
   };
-  l.outcome(format!("str: input={den} parse={} {core_label} try_from_core={} try_from(BaseDIDUrl)={} deserialize={}", sig_label(&sp), sig_label(&st), sig_label(&sb), sig_label(&sd)));
+  l.outcome(format!("str: input={den} parse={} {core_label} try_from_core={} try_from(BaseDIDUrl)={} deserialize={} {valid_label}", sig_label(&sp), sig_label(&st), sig_label(&sb), sig_label(&sd)));
   let trivial = den == "not-an-iota-did" && sp == Sig::Err && st == Sig::Err && sb == Sig::Err && sd == Sig::Err;
   if !trivial {
     l.distinct(&(1u8, s));
   }
 }
 
+/// names that are also tried as `&'static str` (the `TryFrom<&'static str>` / `Cow::Borrowed` constructors)
+const STATIC_NAMES: [&str; 14] = ["iota", "main", "dev", "smr", "rms", "test", "foo", "foobar", "123456", "0", "foo42", "bar123", "42foo", "zzzzzz"];
+const STATIC_INVALID_NAMES: [&str; 18] = ["", "Main", "fOo", "deV", "féta", "  ", "foo ", " foo", "1234567", "foobar0", "NOT VALID!!", "\u{212A}ek", "ſ", "iota:x", "a/b", "a#b", "a-b", "a.b"];
+
 fn eval_net(ctx: &Ctx, name: &str, l: &mut Local) {
   l.evals += 1;
   let case = Case::Net { name: name.to_owned() };
   let want = valid_network(name);
+  let mut fmt = "";
   let r = guard(|| NetworkName::try_from(name.to_owned()));
   let r2 = guard(|| <NetworkName as TryFrom<String>>::try_from(name.to_owned()));
   let r3 = guard(|| NetworkName::validate_network_name(name).is_ok());
@@ -408,8 +537,11 @@ fn eval_net(ctx: &Ctx, name: &str, l: &mut Local) {
         Ok(n) => {
           if !want {
             ctx.violation("NetworkName::try_from|accepted|invalid-network-name", &format!("{name:?}"), &case);
-          } else if n.as_ref() != name || n.to_string() != name || format!("{n:?}") != name {
+          } else if n.as_ref() != name || b.as_ref().map(|n| n.as_ref() != name).unwrap_or(false) {
             ctx.violation("NetworkName::try_from|name-not-verbatim", &format!("{name:?} -> {:?}", n.as_ref()), &case);
+          } else if guard(|| n.to_string() != name || format!("{n:?}") != name).unwrap_or(true) {
+            // how a name is displayed / debug-printed is not part of the statement: recorded
+            fmt = " display-or-debug=not-the-name";
           }
         }
         Err(_) => {
@@ -422,6 +554,29 @@ fn eval_net(ctx: &Ctx, name: &str, l: &mut Local) {
     _ => {
       let p = r.as_ref().err().or(r2.as_ref().err()).or(r3.as_ref().err()).expect("one panicked");
       ctx.violation(&format!("NetworkName::try_from|{}", pkey(p)), &format!("{name:?}: {}", p.msg), &case);
+    }
+  }
+  // the constructors from a `&'static str` (no validation may be skipped because the name is a constant)
+  if let Some(st) = STATIC_NAMES.iter().chain(STATIC_INVALID_NAMES.iter()).find(|n| **n == name) {
+    let r4 = guard(|| <NetworkName as TryFrom<&'static str>>::try_from(*st).ok().map(|n| n.as_ref().to_owned()));
+    let r5 = guard(|| NetworkName::try_from(*st).ok().map(|n| n.as_ref().to_owned()));
+    let r6 = guard(|| NetworkName::try_from(std::borrow::Cow::Borrowed(*st)).ok().map(|n| n.as_ref().to_owned()));
+    for (entry, r) in [("TryFrom<&'static str>", r4), ("try_from(&'static str)", r5), ("try_from(Cow::Borrowed)", r6)] {
+      match r {
+        Err(p) => ctx.violation(&format!("NetworkName::try_from|{}", pkey(&p)), &format!("{entry} {name:?}: {}", p.msg), &case),
+        Ok(Some(got)) => {
+          if !want {
+            ctx.violation("NetworkName::try_from(&'static str)|accepted|invalid-network-name", &format!("{entry} {name:?}"), &case);
+          } else if got != name {
+            ctx.violation("NetworkName::try_from(&'static str)|name-not-verbatim", &format!("{entry} {name:?} -> {got:?}"), &case);
+          }
+        }
+        Ok(None) => {
+          if want {
+            ctx.violation("NetworkName::try_from(&'static str)|valid-name-rejected", &format!("{entry} {name:?}"), &case);
+          }
+        }
+      }
     }
   }
   // serde
@@ -465,7 +620,7 @@ fn eval_net(ctx: &Ctx, name: &str, l: &mut Local) {
       }
     }
   }
-  l.outcome(format!("net: valid={want} try_from={} deserialize={de}", if matches!(r, Ok(Ok(_))) { "Ok" } else { "Err" }));
+  l.outcome(format!("net: valid={want} try_from={} deserialize={de}{fmt}", if matches!(r, Ok(Ok(_))) { "Ok" } else { "Err" }));
   if want || de == "Ok" {
     l.distinct(&(2u8, name));
   }
@@ -475,42 +630,79 @@ fn tag_from_hex(tag: &str) -> Option<[u8; 32]> {
   tag_bytes_any_case(&format!("0x{tag}"))
 }
 
+
+/// The name through every constructor of `NetworkName`: (origin, name). Origins that refuse are left out
+/// (whether they should is judged by the Net cases).
+fn names_by_origin(network: &str) -> Vec<(&'static str, NetworkName)> {
+  let mut out = Vec::new();
+  if let Ok(Ok(n)) = guard(|| NetworkName::try_from(network.to_owned())) {
+    out.push(("try_from(String)", n));
+  }
+  if let Ok(Ok(n)) = guard(|| <NetworkName as TryFrom<String>>::try_from(network.to_owned())) {
+    out.push(("TryFrom<String>", n));
+  }
+  if let Some(st) = STATIC_NAMES.iter().find(|n| **n == network) {
+    if let Ok(Ok(n)) = guard(|| <NetworkName as TryFrom<&'static str>>::try_from(*st)) {
+      out.push(("TryFrom<&'static str>", n));
+    }
+  }
+  if let Ok(Ok(n)) = guard(|| serde_json::from_value::<NetworkName>(json!(network))) {
+    out.push(("deserialize", n));
+  }
+  out
+}
+
 fn eval_new(ctx: &Ctx, tag: &str, network: &str, l: &mut Local) {
   l.evals += 1;
   let case = Case::New { tag: tag.to_owned(), network: network.to_owned() };
-  let (Some(bytes), Ok(Ok(name))) = (tag_from_hex(tag), guard(|| NetworkName::try_from(network.to_owned()))) else {
+  let names = names_by_origin(network);
+  let (Some(bytes), false) = (tag_from_hex(tag), names.is_empty()) else {
     l.outcome("new: tag or network not constructible (not judged)");
     return;
   };
   if !valid_network(network) {
-    l.outcome("new: network accepted by try_from but invalid (judged by Net case)");
+    l.outcome("new: network accepted by a NetworkName constructor but invalid (judged by Net case)");
     return;
   }
-  match guard(|| IotaDID::new(&bytes, &name)) {
-    Err(p) => ctx.violation(&format!("IotaDID::new|valid-arguments|{}", pkey(&p)), &format!("new({tag}, {network:?}): {}", p.msg), &case),
-    Ok(v) => {
-      let want = if network == "iota" { format!("did:iota:0x{tag}") } else { format!("did:iota:{network}:0x{tag}") };
-      if judge(ctx, "IotaDID::parse", "IotaDID::new", &want, &v, &case) {
-        let ok = guard(|| v.as_str() == want && v.network_str() == network && tag_bytes_any_case(v.tag_str()) == Some(bytes)).unwrap_or(false);
-        if !ok {
-          ctx.violation("IotaDID::new|exposes-other-tag-or-network", &format!("new({tag}, {network:?}) = {:?}", v.as_str()), &case);
-        }
-      }
-      l.outcome("new: returned");
-      l.distinct(&(3u8, tag, network));
-    }
-  }
-  if bytes == [0u8; 32] {
-    match guard(|| IotaDID::placeholder(&name)) {
-      Err(p) => ctx.violation(&format!("IotaDID::placeholder|valid-arguments|{}", pkey(&p)), &p.msg, &case),
+  let want = if network == "iota" { format!("did:iota:0x{tag}") } else { format!("did:iota:{network}:0x{tag}") };
+  let mut first: Option<IotaDID> = None;
+  for (origin, name) in &names {
+    match guard(|| IotaDID::new(&bytes, name)) {
+      Err(p) => ctx.violation(&format!("IotaDID::new|valid-arguments|{}", pkey(&p)), &format!("new({tag}, {network:?} obtained by {origin}): {}", p.msg), &case),
       Ok(v) => {
-        let ok = guard(|| v.is_placeholder() && v.network_str() == network && v.tag_str() == IotaDID::PLACEHOLDER_TAG && IotaDID::parse(v.as_str()).ok().as_ref() == Some(&v)).unwrap_or(false);
-        if !ok {
-          ctx.violation("IotaDID::placeholder|not-the-placeholder-of-that-network", &format!("placeholder({network:?}) = {:?}", v.as_str()), &case);
+        // the first value goes through the whole judgement, the others must simply be that value
+        match &first {
+          None => {
+            if judge(ctx, "IotaDID::parse", "IotaDID::new", &want, &v, &case) {
+              let ok = guard(|| v.as_str() == want && v.network_str() == network && tag_bytes_any_case(v.tag_str()) == Some(bytes)).unwrap_or(false);
+              if !ok {
+                ctx.violation("IotaDID::new|exposes-other-tag-or-network", &format!("new({tag}, {network:?}) = {:?}", v.as_str()), &case);
+              }
+            }
+            first = Some(v);
+          }
+          Some(f) => {
+            if guard(|| *f != v || f.as_str() != v.as_str()).unwrap_or(true) {
+              ctx.violation("IotaDID::new|depends-on-how-the-name-was-obtained", &format!("new({tag}, {network:?}): {:?} with the name from {}, {:?} with the name from {origin}", f.as_str(), names[0].0, v.as_str()), &case);
+            }
+          }
+        }
+      }
+    }
+    if bytes == [0u8; 32] {
+      match guard(|| IotaDID::placeholder(name)) {
+        Err(p) => ctx.violation(&format!("IotaDID::placeholder|valid-arguments|{}", pkey(&p)), &p.msg, &case),
+        Ok(v) => {
+          let ok = guard(|| v.is_placeholder() && v.as_str() == want && v.network_str() == network && v.tag_str() == IotaDID::PLACEHOLDER_TAG && IotaDID::parse(v.as_str()).ok().as_ref() == Some(&v)).unwrap_or(false);
+          if !ok {
+            ctx.violation("IotaDID::placeholder|not-the-placeholder-of-that-network", &format!("placeholder({network:?}) = {:?}", v.as_str()), &case);
+          }
         }
       }
     }
   }
+  l.outcome(if first.is_some() { "new: returned" } else { "new: PANIC" });
+  l.distinct(&(3u8, tag, network));
 }
 
 fn eval_alias(ctx: &Ctx, alias: &str, network: &str, l: &mut Local) {
@@ -524,10 +716,13 @@ fn eval_alias(ctx: &Ctx, alias: &str, network: &str, l: &mut Local) {
     // documented as a constructor from "a hex representation of an Alias Id"; what it does with anything else
     // is outside the statement (swept by C05) — recorded only
     Err(p) => {
-      if tag_bytes_any_case(alias).is_some() && valid_network(network) {
+      // "a hex representation of an Alias Id" is `0x` + 64 hex digits (digits of either case: hex digits are
+      // case-insensitive); an upper-case `0X` prefix is not something the documentation promises to take
+      let is_alias_id = tag_bytes_any_case(alias).is_some() && alias.starts_with("0x");
+      if is_alias_id && valid_network(network) {
         ctx.violation(&format!("IotaDID::from_alias_id|valid-arguments|{}", pkey(&p)), &format!("from_alias_id({alias:?}, {network:?}): {}", p.msg), &case);
       }
-      l.outcome(if tag_bytes_any_case(alias).is_some() { "from_alias_id: PANIC on a hex alias id" } else { "from_alias_id: panic on a non-alias-id (not judged)" })
+      l.outcome(if is_alias_id { "from_alias_id: PANIC on a hex alias id" } else { "from_alias_id: panic on a non-alias-id (not judged)" })
     }
     Ok(v) => {
       let given = format!("did:iota:{network}:{alias}");
@@ -604,86 +799,155 @@ fn transitive(xy: Ordering, yz: Ordering, xz: Ordering) -> bool {
   }
 }
 
+// ------------------------------------------------------------------------------------------------ owning conversions
+// A call that does not return cannot be guarded in-process, so `String::from(IotaDID)` / `into_string` run in a
+// child process. No wall-clock time enters the verdict: the child gives itself a CPU-time budget for the
+// conversion (RLIMIT_CPU) and the kernel ends it with SIGXCPU only after it has really *consumed* that much CPU
+// — a slow or overloaded machine makes the probe slower, never "non-terminating". The conversion is a move of
+// one String (nanoseconds of work); the budget is nine orders of magnitude above that.
+
+/// CPU seconds the child may consume inside the conversion before it counts as spinning.
+const PROBE_CPU_S: u64 = 5;
+/// Wall-clock backstop of the parent (a child that neither finishes nor consumes CPU): machinery, never a verdict.
+const PROBE_WALL_BACKSTOP_S: u64 = 900;
+
+enum Probe {
+  /// the conversion returned this string
+  Returned(String),
+  /// the conversion demonstrably does not return: the CPU budget was consumed inside it, or the process died
+  /// of a fatal signal (stack exhaustion by unbounded recursion) between "started" and "done"
+  NeverReturned(String),
+  /// the conversion unwound
+  Panicked,
+  /// `IotaDID::parse` gave no value in the child (judged by the Str cases)
+  NotParsed,
+  /// the probe itself did not work: a machinery note, never a verdict
+  Machinery(String),
+}
+
 /// Body of the child process (`C17_PROBE=<via>:<did>`): prints "started", converts, prints "done:<string>".
 fn probe_child_main(arg: &str) {
   use std::io::Write;
-  let (via, s) = arg.split_once(':').expect("probe argument");
-  let did = IotaDID::parse(s).expect("probe input parses");
-  println!("started");
-  std::io::stdout().flush().ok();
-  let out: String = match via {
-    "0" => String::from(did),
-    "1" => did.into_string(),
-    _ => Into::<String>::into(did),
+  let say = |line: &str| {
+    println!("{line}");
+    std::io::stdout().flush().ok();
   };
-  println!("done:{out}");
-  std::io::stdout().flush().ok();
-}
-
-/// Ok(string) if the conversion returned; Err(how it failed to). `None` = the probe itself could not run.
-fn probe_into_string(s: &str, via: u8) -> Option<Result<String, String>> {
-  use std::io::BufRead;
-  use std::process::{Command, Stdio};
-  use std::time::Duration;
-  let exe = std::env::current_exe().ok()?;
-  let mut child = Command::new(exe).env("C17_PROBE", format!("{via}:{s}")).stdin(Stdio::null()).stdout(Stdio::piped()).stderr(Stdio::null()).spawn().ok()?;
-  let out = child.stdout.take()?;
-  let (tx, rx) = std::sync::mpsc::channel::<String>();
-  std::thread::spawn(move || {
-    for line in std::io::BufReader::new(out).lines().map_while(Result::ok) {
-      if tx.send(line).is_err() {
-        break;
-      }
+  let Some((via, s)) = arg.split_once(':') else { return say("bad-argument") };
+  let did = match std::panic::catch_unwind(|| IotaDID::parse(s)) {
+    Ok(Ok(d)) => d,
+    _ => return say("not-parsed"),
+  };
+  // no core files; CPU budget = what start-up has used so far + PROBE_CPU_S
+  let armed = unsafe {
+    let none = libc::rlimit { rlim_cur: 0, rlim_max: 0 };
+    libc::setrlimit(libc::RLIMIT_CORE, &none);
+    let mut ru: libc::rusage = std::mem::zeroed();
+    libc::getrusage(libc::RUSAGE_SELF, &mut ru);
+    let used = (ru.ru_utime.tv_sec + ru.ru_stime.tv_sec) as u64 + 2;
+    // only the soft limit is lowered (that needs no privilege whatever the inherited hard limit is)
+    let mut lim = libc::rlimit { rlim_cur: libc::RLIM_INFINITY, rlim_max: libc::RLIM_INFINITY };
+    libc::getrlimit(libc::RLIMIT_CPU, &mut lim) == 0 && {
+      lim.rlim_cur = ((used + PROBE_CPU_S) as libc::rlim_t).min(lim.rlim_max);
+      libc::setrlimit(libc::RLIMIT_CPU, &lim) == 0
+    }
+  };
+  if !armed {
+    return say("no-cpu-limit");
+  }
+  say("started");
+  let out = std::panic::catch_unwind(move || -> String {
+    match via {
+      "0" => String::from(did),
+      "1" => did.into_string(),
+      _ => Into::<String>::into(did),
     }
   });
-  // process start-up may be slow on a loaded machine: generous; the conversion itself is microseconds of work
-  let started = matches!(rx.recv_timeout(Duration::from_secs(120)).as_deref(), Ok("started"));
-  if !started {
-    let _ = child.kill();
-    let _ = child.wait();
-    return None;
+  match out {
+    Ok(out) => say(&format!("done:{out}")),
+    Err(_) => say("panicked"),
   }
-  let res = match rx.recv_timeout(Duration::from_secs(30)) {
-    Ok(line) => match line.strip_prefix("done:") {
-      Some(v) => Ok(v.to_owned()),
-      None => Err(format!("unexpected output {line:?}")),
-    },
-    Err(std::sync::mpsc::RecvTimeoutError::Timeout) => Err("still running 30 s after it started (non-terminating)".to_owned()),
-    Err(std::sync::mpsc::RecvTimeoutError::Disconnected) => {
-      let st = child.wait().ok();
-      Err(format!("the process died without returning ({st:?})"))
-    }
-  };
-  let _ = child.kill();
-  let _ = child.wait();
-  Some(res)
 }
 
-fn eval_into_string(ctx: &Ctx, s: &str, via: u8, l: &mut Local) {
-  l.evals += 1;
-  let case = Case::IntoString { s: s.to_owned(), via };
-  let name = ["String::from(IotaDID)", "DID::into_string(IotaDID)", "Into::<String>::into(IotaDID)"][via.min(2) as usize];
-  if !matches!(guard(|| IotaDID::parse(s)), Ok(Ok(_))) {
-    l.outcome("into_string: input rejected by parse (not judged)");
-    return;
-  }
-  match probe_into_string(s, via) {
-    None => {
-      ctx.require(false, "into_string probe: the child process could not be started");
-      l.outcome("into_string: probe could not run");
+fn probe_into_string(s: &str, via: u8) -> Probe {
+  use std::io::BufRead;
+  use std::os::unix::process::ExitStatusExt;
+  use std::process::{Command, Stdio};
+  let Ok(exe) = std::env::current_exe() else { return Probe::Machinery("current_exe".into()) };
+  let mut child = match Command::new(exe).env("C17_PROBE", format!("{via}:{s}")).stdin(Stdio::null()).stdout(Stdio::piped()).stderr(Stdio::null()).spawn() {
+    Ok(c) => c,
+    Err(e) => return Probe::Machinery(format!("spawn: {e}")),
+  };
+  let Some(out) = child.stdout.take() else { return Probe::Machinery("no stdout pipe".into()) };
+  let reader = std::thread::spawn(move || std::io::BufReader::new(out).lines().map_while(Result::ok).collect::<Vec<String>>());
+  let t0 = std::time::Instant::now();
+  let status = loop {
+    match child.try_wait() {
+      Ok(Some(st)) => break st,
+      Ok(None) => {
+        if t0.elapsed().as_secs() > PROBE_WALL_BACKSTOP_S {
+          let _ = child.kill();
+          let _ = child.wait();
+          return Probe::Machinery(format!("the child neither finished nor used up its CPU budget within {PROBE_WALL_BACKSTOP_S} s of wall-clock time"));
+        }
+        std::thread::sleep(std::time::Duration::from_millis(5));
+      }
+      Err(e) => return Probe::Machinery(format!("wait: {e}")),
     }
-    Some(Ok(out)) => {
+  };
+  let lines = reader.join().unwrap_or_default();
+  if let Some(v) = lines.iter().find_map(|l| l.strip_prefix("done:")) {
+    return Probe::Returned(v.to_owned());
+  }
+  if lines.iter().any(|l| l == "panicked") {
+    return Probe::Panicked;
+  }
+  if lines.iter().any(|l| l == "not-parsed") {
+    return Probe::NotParsed;
+  }
+  if !lines.iter().any(|l| l == "started") {
+    return Probe::Machinery(format!("the child ended ({status:?}) before it started the conversion; output {lines:?}"));
+  }
+  match status.signal() {
+    Some(libc::SIGXCPU) => Probe::NeverReturned(format!("consumed {PROBE_CPU_S} s of CPU time inside the conversion without returning (ended by SIGXCPU)")),
+    Some(sig) if [libc::SIGSEGV, libc::SIGBUS, libc::SIGABRT].contains(&sig) => Probe::NeverReturned(format!("the process died of signal {sig} inside the conversion (stack exhausted by unbounded recursion)")),
+    _ => Probe::Machinery(format!("the child ended ({status:?}) inside the conversion for a reason that is not the conversion's")),
+  }
+}
+
+const VIA_NAMES: [&str; 3] = ["String::from(IotaDID)", "DID::into_string(IotaDID)", "Into::<String>::into(IotaDID)"];
+
+/// Judge one probe result (shared by the explorer and by replay).
+fn judge_probe(ctx: &Ctx, s: &str, via: u8, r: Probe) -> &'static str {
+  let case = Case::IntoString { s: s.to_owned(), via };
+  let name = VIA_NAMES[via.min(2) as usize];
+  match r {
+    Probe::Machinery(why) => {
+      ctx.require(false, &format!("into_string probe did not work ({name} of {s:?}): {why}"));
+      "into_string: probe could not run"
+    }
+    Probe::NotParsed => "into_string: input rejected by parse (not judged)",
+    Probe::Returned(out) => {
       let want = guard(|| IotaDID::parse(s).map(|d| d.as_str().to_owned()).ok()).ok().flatten();
       if Some(&out) != want.as_ref() {
         ctx.violation("IotaDID::into_string|differs-from-as_str", &format!("{name} of {s:?} = {out:?}, as_str {want:?}"), &case);
       }
-      l.outcome("into_string: returned the string form");
+      "into_string: returned the string form"
     }
-    Some(Err(how)) => {
+    Probe::Panicked => {
+      ctx.violation("IotaDID::into_string|panics", &format!("{name} of the value parsed from {s:?} unwinds"), &case);
+      "into_string: PANIC"
+    }
+    Probe::NeverReturned(how) => {
       ctx.violation("IotaDID::into_string|never-returns", &format!("{name} of the value parsed from {s:?}: {how}"), &case);
-      l.outcome("into_string: NEVER RETURNED");
+      "into_string: NEVER RETURNED"
     }
   }
+}
+
+fn eval_into_string(ctx: &Ctx, s: &str, via: u8, l: &mut Local) {
+  l.evals += 1;
+  let label = judge_probe(ctx, s, via, probe_into_string(s, via));
+  l.outcome(label);
   l.distinct(&(6u8, s, via));
 }
 
@@ -758,6 +1022,35 @@ const TAG_A: &str = "f29dd16310c2100fd1bf568b345fb1cc14d71caa3bd9b5ad735d2bd6d45
 const TAG_B: &str = "0123456789abcdef0123456789abcdef0123456789abcdef0123456789abcdef";
 const TAG_0: &str = "0000000000000000000000000000000000000000000000000000000000000000";
 
+/// Every ASCII character plus the non-ASCII characters that Unicode-aware classifications or case mappings would
+/// let through where the ASCII ones are meant (lowercase letters, digits of other scripts, characters whose
+/// lower-case form is ASCII, invisible characters).
+fn char_table() -> Vec<String> {
+  let mut t: Vec<String> = (0u8..128).map(|b| (b as char).to_string()).collect();
+  for c in ['\u{80}', '\u{a0}', 'ª', '²', 'ß', 'é', 'É', 'İ', 'ı', 'ſ', 'ǅ', '\u{212A}', '\u{212B}', '٣', '０', 'ａ', 'Ａ', '\u{200b}', '\u{feff}', '𝐚', '𝟎'] {
+    t.push(c.to_string());
+  }
+  t
+}
+
+/// Each character of the table at each position of an otherwise valid name, lengths 1..=7 (7 is one too long).
+fn names_from_table(table: &[String]) -> Vec<String> {
+  let base = ["a", "b", "c", "d", "e", "f", "0"];
+  let mut out = Vec::new();
+  for len in 1..=7usize {
+    for pos in 0..len {
+      for c in table {
+        let mut n = String::new();
+        for (i, b) in base.iter().enumerate().take(len) {
+          n.push_str(if i == pos { c } else { b });
+        }
+        out.push(n);
+      }
+    }
+  }
+  out
+}
+
 fn structured_tags(n: usize) -> Vec<String> {
   let mut t: Vec<[u8; 32]> = Vec::new();
   t.push([0; 32]);
@@ -775,6 +1068,14 @@ fn structured_tags(n: usize) -> Vec<String> {
     *b = 255 - i as u8;
   }
   t.push(desc);
+  // every byte value occurs in some tag
+  for k in 1..8u8 {
+    let mut run = [0u8; 32];
+    for (i, b) in run.iter_mut().enumerate() {
+      *b = k * 32 + i as u8;
+    }
+    t.push(run);
+  }
   for i in 0..32 {
     let mut one = [0u8; 32];
     one[i] = 0x01;
@@ -796,17 +1097,22 @@ fn generate(ctx: &Ctx) {
   ctx.assume("CoreDID-level defects (property C10) surface here only through the IOTA entry points; a panic raised inside CoreDID::parse is keyed as CoreDID::parse");
   // owning conversions to String, probed in child processes while the rest runs
   let probe_inputs: Vec<(String, u8)> = [format!("did:iota:0x{TAG_A}"), format!("did:iota:smr:0x{TAG_0}")].into_iter().flat_map(|s| (0..3u8).map(move |v| (s.clone(), v))).collect();
-  let probes: Vec<std::thread::JoinHandle<(String, u8, Option<Result<String, String>>)>> =
+  let probes: Vec<std::thread::JoinHandle<(String, u8, Probe)>> =
     probe_inputs.iter().cloned().map(|(s, v)| std::thread::spawn(move || {
       let r = probe_into_string(&s, v);
       (s, v, r)
     })).collect();
   // (a) grid
   let schemes = ["did", "DID", "dod"];
-  let methods = ["iota", "IOTA", "Iota", "iot", "iotaa", "key"];
-  let nets: [Option<&str>; 17] = [
+  let methods = ["iota", "IOTA", "Iota", "iot", "iotaa", "aiota", "key"];
+  let nets: [Option<&str>; 25] = [
     None, Some("iota"), Some("IOTA"), Some("Iota"), Some("main"), Some("smr"), Some("SMR"), Some("a"), Some("123456"), Some("1234567"), Some("Ma-in"), Some(""), Some("féta"), Some("\u{212A}ek"), Some("rms:x"),
     Some(" smr"), Some("sm r"),
+    // an extra leading default-network segment (normalising must not come before validating), the default network
+    // in second position, a name that only a Unicode case mapping turns into ASCII
+    Some("iota:smr"), Some("iota:iota"), Some("IOTA:smr"), Some("smr:iota"), Some("\u{212A}"),
+    // names that have the default network's name as a prefix / suffix, or are a prefix of it
+    Some("iot"), Some("iotaa"), Some("aiota"),
   ];
   let up = |s: &str| s.to_ascii_uppercase();
   let mixed: String = TAG_A.chars().enumerate().map(|(i, c)| if i % 2 == 0 { c.to_ascii_uppercase() } else { c }).collect();
@@ -854,37 +1160,86 @@ fn generate(ctx: &Ctx) {
     }
   }
   run_list(ctx, "string grid scheme x method x network x tag x suffix x prefix", &cases);
+  // (a2) every sequence of leading segments in front of a tag
+  let seg_sigma: Vec<String> = vec!["iota".into(), "IOTA".into(), "smr".into(), "a".into(), String::new(), "1234567".into(), "main".into(), format!("0x{TAG_A}")];
+  let seg_depth = ctx.by_tier(3, 5);
+  let seg_tags = [format!("0x{TAG_A}"), format!("0x{TAG_0}"), format!("0x{}", up(TAG_A)), format!("0x{}", &TAG_A[..63])];
+  let mut cases: Vec<Case> = Vec::new();
+  let mut layer: Vec<String> = vec![String::new()];
+  for depth in 0..=seg_depth {
+    for lead in &layer {
+      for t in &seg_tags {
+        for sfx in ["", ":"] {
+          cases.push(Case::Str { s: format!("did:iota:{lead}{t}{sfx}") });
+        }
+      }
+    }
+    if depth < seg_depth {
+      layer = layer.iter().flat_map(|l| seg_sigma.iter().map(move |g| format!("{l}{g}:"))).collect();
+    }
+  }
+  run_list(ctx, "leading segment sequences x tag", &cases);
   // (b) every single-character substitution of the tag, every short network name inside a DID
-  let subs = ["g", "G", "A", "F", ":", "%", "/", "#", "?", "é", " ", "x", ""];
+  // the complete ASCII table, deletion, and characters that Unicode case mappings / digit classes confuse
+  let table = char_table();
+  let mut subs: Vec<String> = table.clone();
+  subs.push(String::new());
   let mut cases: Vec<Case> = Vec::new();
   let full = format!("0x{TAG_A}");
   for net in ["", "smr:", "iota:"] {
     for pos in 0..full.len() {
-      for r in subs {
+      for r in &subs {
         cases.push(Case::Str { s: format!("did:iota:{net}{}{r}{}", &full[..pos], &full[pos + 1..]) });
       }
     }
     for len in 0..=full.len() {
       cases.push(Case::Str { s: format!("did:iota:{net}{}", &full[..len]) });
     }
+    // longer than 32 bytes: 1..=6 more digits, twice the length
+    for more in 1..=6 {
+      cases.push(Case::Str { s: format!("did:iota:{net}{full}{}", &TAG_B[..more]) });
+    }
+    cases.push(Case::Str { s: format!("did:iota:{net}{full}{TAG_B}") });
+  }
+  // two simultaneous substitutions (non-hex letters of both cases, the neighbours of the digit range, a separator)
+  let pair_subs: Vec<&str> = ctx.by_tier(vec!["g", "Z", ":", "/"], vec!["g", "Z", ":", "/", "G", "z", "@", "`", "_", "X"]);
+  let pair_positions: Vec<usize> = (0..full.len()).collect();
+  for net in ["", "smr:"] {
+    for (i, p) in pair_positions.iter().enumerate() {
+      for q in &pair_positions[i + 1..] {
+        for a in &pair_subs {
+          for b in &pair_subs {
+            cases.push(Case::Str { s: format!("did:iota:{net}{}{a}{}{b}{}", &full[..*p], &full[p + 1..*q], &full[q + 1..]) });
+          }
+        }
+      }
+    }
   }
   let net_sigma = ["a", "Z", "0", "-", "é"];
   for n in strings(&net_sigma, ctx.by_tier(5, 7)) {
     cases.push(Case::Str { s: format!("did:iota:{n}:0x{TAG_A}") });
   }
-  run_list(ctx, "tag substitutions/truncations and embedded network names", &cases);
+  // every character of the table at every position of a network name of length 1..=7, inside a DID
+  let table_names = names_from_table(&table);
+  for n in &table_names {
+    cases.push(Case::Str { s: format!("did:iota:{n}:0x{TAG_A}") });
+  }
+  run_list(ctx, "tag substitutions/truncations/extensions and embedded network names", &cases);
   // (c) network names
   let mut cases: Vec<Case> = strings(&net_sigma, 7).into_iter().map(|name| Case::Net { name }).collect();
   let wide = ["a", "z", "Z", "0", "9", "-", "é", " ", ":", "_"];
   cases.extend(strings(&wide, ctx.by_tier(4, 6)).into_iter().map(|name| Case::Net { name }));
-  for name in ["iota", "main", "dev", "smr", "rms", "test", "foo", "foobar", "123456", "0", "foo42", "bar123", "42foo", "Main", "fOo", "deV", "féta", "  ", "foo ", " foo", "1234567", "foobar0", "NOT VALID!!", "\u{212A}ek", "ſ", "iota:x", "a/b", "a#b"] {
-    cases.push(Case::Net { name: name.into() });
+  for name in STATIC_NAMES.iter().chain(STATIC_INVALID_NAMES.iter()) {
+    cases.push(Case::Net { name: name.to_string() });
   }
+  cases.extend(table_names.iter().map(|name| Case::Net { name: name.clone() }));
   run_list(ctx, "network names", &cases);
   // (d) constructors
   let alnum: Vec<&str> = "abcdefghijklmnopqrstuvwxyz0123456789".split("").filter(|s| !s.is_empty()).collect();
   let mut names: Vec<String> = strings(&alnum, ctx.by_tier(2, 3)).into_iter().filter(|s| !s.is_empty()).collect();
-  names.extend(["iota", "main", "dev", "smr", "rms", "test", "foo", "foobar", "123456", "foo42", "bar123", "42foo", "zzzzzz"].map(String::from));
+  names.extend(["iota", "main", "dev", "smr", "rms", "test", "foo", "foobar", "123456", "foo42", "bar123", "42foo", "zzzzzz", "iot", "iotaa", "aiota", "iota0", "0iota", "iotb"].map(String::from));
+  names.sort();
+  names.dedup();
   let tags_c = structured_tags(ctx.by_tier(100, 24));
   let mut cases: Vec<Case> = Vec::new();
   for t in &tags_c {
@@ -907,18 +1262,33 @@ fn generate(ctx: &Ctx) {
       cases.push(Case::Alias { alias: format!("0x{}", t.to_ascii_uppercase()), network: n.into() });
     }
   }
+  // an "alias id" that brings segments of its own, a non-hex alphanumeric at every position
+  for n in ["iota", "smr"] {
+    for lead in ["iota:", "smr:", "iota:iota:", ":"] {
+      cases.push(Case::Alias { alias: format!("{lead}0x{TAG_A}"), network: n.into() });
+    }
+    for pos in 0..full.len() {
+      for r in ["g", "Z", "_", "\u{212A}"] {
+        cases.push(Case::Alias { alias: format!("{}{r}{}", &full[..pos], &full[pos + 1..]), network: n.into() });
+      }
+    }
+  }
   run_list(ctx, "from_alias_id: tag grid x suffixes x network names", &cases);
   // (e) comparison pool: every construction path × (network, tag)
   let mut builds: Vec<Build> = Vec::new();
-  for network in ["iota", "smr", "a", "123456", "iot", "iotaa"] {
-    for tag in [TAG_A, TAG_B, TAG_0, &hex_lower(&[0xab; 32]), &hex_lower(&[0xff; 32])] {
+  // neighbours: tags that differ in the first / the last digit only, a tag that is the placeholder but for its last bit
+  let tag_a_first = format!("e{}", &TAG_A[1..]);
+  let tag_a_last = format!("{}c", &TAG_A[..63]);
+  let tag_one = format!("{}1", &TAG_0[..63]);
+  for network in ["iota", "smr", "sms", "a", "0", "123456", "iot", "iotaa"] {
+    for tag in [TAG_A, &tag_a_first, &tag_a_last, TAG_B, TAG_0, &tag_one, &hex_lower(&[0xab; 32]), &hex_lower(&[0xff; 32])] {
       for path in 0..10u8 {
         builds.push(Build { path, network: network.into(), tag: tag.to_string() });
       }
     }
   }
   let pool: Vec<(Build, IotaDID)> = builds.iter().filter_map(|b| build(b).map(|v| (b.clone(), v))).collect();
-  ctx.require(pool.len() >= 100, &format!("comparison pool too small: {} of {}", pool.len(), builds.len()));
+  ctx.require(pool.len() >= 200, &format!("comparison pool too small: {} of {}", pool.len(), builds.len()));
   let paths_present: std::collections::BTreeSet<u8> = pool.iter().map(|(b, _)| b.path).collect();
   ctx.require(paths_present.len() >= 8, &format!("construction paths in the pool: {paths_present:?}"));
   let np = pool.len();
@@ -936,22 +1306,34 @@ fn generate(ctx: &Ctx) {
       row
     })
     .collect();
-  let mut intransitive = 0u64;
-  for i in 0..np {
-    for j in 0..np {
-      for k in 0..np {
-        if !transitive(cmp[i][j], cmp[j][k], cmp[i][k]) {
-          intransitive += 1;
-          if intransitive <= 8 {
-            eval(ctx, &Case::Trans { a: pool[i].0.clone(), b: pool[j].0.clone(), c: pool[k].0.clone() });
+  // all triples over the comparison matrix; the first few offenders (in index order) are re-evaluated as cases
+  let offenders: Vec<(u64, Vec<(usize, usize, usize)>)> = (0..np)
+    .into_par_iter()
+    .map(|i| {
+      let mut n = 0u64;
+      let mut first = Vec::new();
+      for j in 0..np {
+        for k in 0..np {
+          if !transitive(cmp[i][j], cmp[j][k], cmp[i][k]) {
+            n += 1;
+            if first.len() < 8 {
+              first.push((i, j, k));
+            }
           }
         }
       }
-    }
+      (n, first)
+    })
+    .collect();
+  let intransitive: u64 = offenders.iter().map(|(n, _)| n).sum();
+  for (i, j, k) in offenders.iter().flat_map(|(_, f)| f.iter().copied()).take(8) {
+    eval(ctx, &Case::Trans { a: pool[i].0.clone(), b: pool[j].0.clone(), c: pool[k].0.clone() });
   }
-  eval(ctx, &Case::Trans { a: pool[0].0.clone(), b: pool[1].0.clone(), c: pool[np - 1].0.clone() });
-  ctx.sample("pool pairs", &Case::Eq { a: pool[0].0.clone(), b: pool[np - 1].0.clone() });
-  ctx.sample("pool triples", &Case::Trans { a: pool[0].0.clone(), b: pool[1].0.clone(), c: pool[np - 1].0.clone() });
+  if np >= 2 {
+    eval(ctx, &Case::Trans { a: pool[0].0.clone(), b: pool[1].0.clone(), c: pool[np - 1].0.clone() });
+    ctx.sample("pool pairs", &Case::Eq { a: pool[0].0.clone(), b: pool[np - 1].0.clone() });
+    ctx.sample("pool triples", &Case::Trans { a: pool[0].0.clone(), b: pool[1].0.clone(), c: pool[np - 1].0.clone() });
+  }
   ctx.add_states(np as u64);
   ctx.add_transitions((np * np) as u64);
   ctx.add_traces((np * np) as u64);
@@ -971,25 +1353,18 @@ fn generate(ctx: &Ctx) {
     ctx.add_transitions(1);
     ctx.add_traces(1);
     ctx.distinct(&(6u8, &s, via));
-    match r {
-      None => ctx.require(false, "into_string probe: the child process could not be started"),
-      Some(Ok(out)) => {
-        if IotaDID::parse(&s).map(|d| d.as_str() != out).unwrap_or(true) {
-          ctx.violation("IotaDID::into_string|differs-from-as_str", &format!("{s:?} -> {out:?}"), &case);
-        }
-        ctx.outcome("into_string: returned the string form");
-      }
-      Some(Err(how)) => {
-        never += 1;
-        ctx.violation("IotaDID::into_string|never-returns", &format!("owning conversion (via {via}: 0 String::from, 1 DID::into_string, 2 Into::into) of the value parsed from {s:?}: {how}"), &case);
-        ctx.outcome("into_string: NEVER RETURNED");
-      }
+    if matches!(r, Probe::NeverReturned(_)) {
+      never += 1;
     }
+    ctx.outcome(judge_probe(ctx, &s, via, r));
     ctx.sample("into_string probes", &case);
   }
-  ctx.part("owning String conversions (child-process probes)", json!({"probes": probe_inputs.len(), "never_returned": never}));
+  ctx.part("owning String conversions (child-process probes)", json!({"probes": probe_inputs.len(), "never_returned": never, "cpu_budget_s": PROBE_CPU_S}));
   ctx.bound("grid", json!({"schemes": schemes.len(), "methods": methods.len(), "networks": nets.len(), "tags": tags.len(), "suffixes": suffixes.len(), "prefixes": prefixes.len()}));
   ctx.bound("network_name_alphabets", json!({"narrow": net_sigma, "narrow_max_len": 7, "wide": wide, "wide_max_len": ctx.by_tier(4, 6)}));
+  ctx.bound("leading_segments", json!({"alphabet": seg_sigma.len(), "max_depth": seg_depth, "tags": seg_tags.len()}));
+  ctx.bound("character_table", table.len());
+  ctx.bound("tag_pair_substitutions", json!({"positions": pair_positions.len(), "alphabet": pair_subs}));
   ctx.bound("constructor_network_names", names.len());
   ctx.bound("constructor_tags", tags_c.len());
 }
